@@ -153,6 +153,37 @@ def r4(c):
     if ok:
         ok = q.is_name(g, ex[0]['cs'].args[1], 'id')
     c.ob('get', ok, 'ServerHandlerMap::get looks up exactly the given id', '', loc_of(g))
+    # the fan-out itself: execute runs for EVERY handler the iteration yields (no early exit, no skipped element)
+    b = hf(c)
+    NEXT = 'core::iter::traits::iterator::Iterator::next'
+    sites = [cs for cs in P.callers(EXECUTE) if P.logical_name(cs.body) == P.logical_name(b)]
+    inl = [cs for cs in sites if cs.body is b]
+    if len(sites) == 1 and inl:
+        ex_ = inl[0]
+        cyc = b.cycle_of(ex_.node)
+        nxs = [cs for cs in b.calls(NEXT) if cyc and cs.node in cyc and any(y[0] == 'call' and y[1] == HITER for y in b.op_closure(cs.args[0]))]
+        okl = bool(cyc) and len(nxs) == 1
+        why = 'execute is %sin a loop; %d iterator steps over handlers.iter_mut() in it' % ('' if cyc else 'not ', len(nxs))
+        if okl:
+            oc = q.outcomes(b, nxs[0])
+            none, some = set(oc.get('None', [])), oc.get('Some', [])
+            leaving = {s_ for n_ in cyc for s_ in b.succ[n_] if s_ not in cyc}
+            leaving = {s_ for s_ in leaving if not all(t_[0] == 'b' and b.blocks[t_[1]]['term']['t'] == 'unreachable' for t_ in b.succ[s_])}
+            every = bool(some) and all(nxs[0].node not in b.reach_set(e, avoid={ex_.node}) for e in some)
+            okl = bool(none) and leaving <= none and every
+            why = 'edges leaving the loop: %s (exhaustion edges %s); every yielded handler reaches execute: %s' % (sorted(leaving), sorted(none), every)
+        c.ob('fan-out/every-handler', okl, 'the broadcast loop steps through handlers.iter_mut() and is left only when the iterator is exhausted; each element yielded is executed', why, ex_.loc())
+    elif len(sites) == 1:
+        # written with an iterator adapter: only `for_each` visits every element unconditionally
+        cb = sites[0].body
+        users = [cs for cs in b.calls() if any(y[0] == 'closure' and y[1] == cb.path for a in cs.args for y in b.op_closure(a))]
+        okl = len(users) == 1 and users[0].declared == 'core::iter::traits::iterator::Iterator::for_each' and \
+            any(y[0] == 'call' and y[1] == HITER for y in b.op_closure(users[0].args[0])) and not cb.in_cycle(sites[0].node) and \
+            all(cb.dominates(sites[0].node, ('b', i)) for i in cb.return_blocks())
+        c.ob('fan-out/every-handler', okl, 'the broadcast closure is driven by Iterator::for_each over handlers.iter_mut() (an adapter that can stop early -- all, any, try_for_each, find -- does not reach every unit) and always executes',
+             str([u.declared for u in users]), sites[0].loc())
+    else:
+        c.ob('fan-out/every-handler', False, 'one broadcast execution site in handle_frame', '%d sites' % len(sites), loc_of(b))
 
 
 @rule('C17', 'R17.5', 'Broadcast is produced only by the RTU parser for address 0; MBAP frames always carry a unit id',
